@@ -16,4 +16,5 @@ def run(rep, W, ctx):
     S.s_sql_closed(rep, W)
     S.c02_cnt(rep, W)
     S.c10(rep, W)
+    S.c11(rep, W)            # "how old the stored snapshot is": the time set_snapshot is given is the time get_client returns (seconds both ways)
     H.c14_tables(rep, W, modules=("add_version",))   # the urgency reaches the client: X-Snapshot-Request rows of the AddVersion handler
